@@ -30,7 +30,7 @@ PROPERTY = "C12"
 RULE = ("machine scenario = (main-loop slots, handler slots, initial IMR/ISR/F, MTI/STI periods, host-event schedule, "
         "step count) run on one model; enumerated part: every sequence of length D (quick 3, thorough 4) over "
         "{none, key event, ON key, MV (IMR),v for v in 00/80/81/84/88/8F, MV (ISR),00} at the first D boundaries of a "
-        "spin loop x MTI period {0,2} (thorough {0,1,2,3}) x initial IMR {00,8F} x handler {RETI, MV (ISR),00; RETI}; sampled part: "
+        "spin loop (thorough: D=3 and D=4) x MTI period {0,2} (thorough D=3: {0,1,2,3}) x initial IMR {00,8F} x handler {RETI, MV (ISR),00; RETI}; sampled part: "
         "seeded random skeletons (NOP/INC/IMR writes/ISR clear/ACK/KIL read/HALT/OFF/WAIT 1..40), handlers (NOP, ISR "
         "clear, ACK, INC (n), OR (IMR),80, MV (IMR),v, KIL read), IMR in 32 mask combinations, ISR nibble, periods "
         "{0..7,50}, events (key down/up/inject, ON down/up) over 60 boundaries. Non-trivial = at least one delivery, "
@@ -94,27 +94,29 @@ def enum_scenario(seq: Tuple[int, ...], mti: int, imr0: int, hidx: int, model: s
             "steps": len(seq) + 12, "events": events}
 
 
-def enum_periods(depth: int) -> Tuple[int, ...]:
-    return (0, 2) if depth <= 3 else (0, 1, 2, 3)
+def enum_dims(depth: int, full: bool) -> Tuple[Tuple[int, ...], Tuple[int, ...], Tuple[int, ...]]:
+    """(MTI periods, initial IMR values, handler indices) crossed with the event sequences."""
+    return ((0, 1, 2, 3) if full else (0, 2)), (0x00, 0x8F), (0, 1)
 
 
-def enum_count(depth: int) -> int:
-    return len(enum_alphabet()) ** depth * len(enum_periods(depth)) * 2 * 2
+def enum_count(depth: int, full: bool) -> int:
+    per, imrs, hs = enum_dims(depth, full)
+    return len(enum_alphabet()) ** depth * len(per) * len(imrs) * len(hs)
 
 
-def enum_case(idx: int, depth: int) -> Dict[str, Any]:
+def enum_case(idx: int, depth: int, full: bool) -> Dict[str, Any]:
     n = len(enum_alphabet())
     seq = []
     x = idx
     for _ in range(depth):
         seq.append(x % n)
         x //= n
-    per = enum_periods(depth)
+    per, imrs, hs = enum_dims(depth, full)
     mti = per[x % len(per)]
     x //= len(per)
-    imr0 = (0x00, 0x8F)[x % 2]
-    x //= 2
-    hidx = x % 2
+    imr0 = imrs[x % len(imrs)]
+    x //= len(imrs)
+    hidx = hs[x % len(hs)]
     return enum_scenario(tuple(seq), mti, imr0, hidx, "")
 
 
@@ -237,10 +239,10 @@ def _shard(task: Tuple[str, int, int, int, int, str]) -> Report:
     rep = Report()
     scs: List[Tuple[Dict[str, Any], List[str]]] = []
     if kind == "enum":
-        depth = param
-        total = enum_count(depth)
+        depth, full = param % 16, bool(param // 16)
+        total = enum_count(depth, full)
         for idx in range(shard, total, nshards):
-            scs.append((enum_case(idx, depth), ["gen:enum"]))
+            scs.append((enum_case(idx, depth, full), [f"gen:enum-depth{depth}"]))
     else:
         count = param
         for j in range(count):
@@ -263,18 +265,25 @@ def run(ctx: Ctx) -> Report:
     if bad:
         raise HarnessError("C12 template self-test failed (decoder disagrees with hand encoding): " + "; ".join(bad[:3]))
     rsclient.build()
-    depth = ctx.pick(3, 4)
     nsh = ctx.pick(32, 128)
-    tasks: List[Tuple[str, int, int, int, int, str]] = [("enum", i, nsh, ctx.seed, depth, ctx.tier) for i in range(nsh)]
-    per = ctx.pick(50, 320)
+    # (depth, full cross of periods?) -- quick: depth 3 x periods {0,2}; thorough: depth 3 x periods {0,1,2,3}
+    # plus depth 4 x periods {0,2}
+    enums = ctx.pick([(3, False)], [(3, True), (4, False)])
+    tasks: List[Tuple[str, int, int, int, int, str]] = []
+    for depth, full in enums:
+        tasks += [("enum", i, nsh, ctx.seed, depth + 16 * int(full), ctx.tier) for i in range(nsh)]
+    per = ctx.pick(50, 200)
     tasks += [("rand", i, nsh, ctx.seed, per, ctx.tier) for i in range(nsh)]
     reports = ctx.pmap(_shard, tasks)
     rep = ctx.merge_reports(reports)
     rep.rule = RULE
     rep.assumptions = list(ASSUMPTIONS)
     rep.exhaustive = False
-    rep.extra["enumeration"] = {"depth": depth, "alphabet": [f"{k}:{a}" for k, a in enum_alphabet()],
-                                "scenarios_per_model": enum_count(depth), "complete": True}
+    rep.extra["enumeration"] = {"alphabet": [f"{k}:{a}" for k, a in enum_alphabet()],
+                                "parts": [{"depth": d, "mti_periods": list(enum_dims(d, f)[0]), "initial_imr": [0x00, 0x8F],
+                                           "handlers": ["RETI", "MV (ISR),00; RETI"],
+                                           "scenarios_per_model": enum_count(d, f)} for d, f in enums],
+                                "complete": True}
     rep.extra["random_scenarios_per_model"] = per * nsh
     return rep
 
